@@ -65,7 +65,7 @@ static Bytes c_saved_key(int alg, const Bytes &k)
 struct Cipher {
     bool live = false;
     int cls = 0, alg = 0;
-    alignas(16) unsigned char mem[640];
+    alignas(16) unsigned char mem[4096]; // generous: object sizes are the library's business
     size_t size = 0;
     ascon::aead *obj = nullptr;
     Bytes key;      // model
